@@ -418,10 +418,10 @@ let exec (op : string) : unit =
               spec_fail (Printf.sprintf "DOMAIN soundWb %d (search invariant ReachWide.SoundW of the closed theorems) is false in [%s]: compared with the oracle all the same" !sdepth (snap_of b))
             else if not (soundCb tbl rk bs (nat_of_int !sdepth) b) then
               spec_fail (Printf.sprintf "DOMAINC soundCb %d (ClosedWide.SoundC, the domain of the cache / schedule theorems) is false in [%s]" !sdepth (snap_of b));
-            (* depth >= 4 inside the wide domain: full-window alpha-beta per root move, equal to the plain
+            (* depth >= 3 inside the wide domain: full-window alpha-beta per root move, equal to the plain
                minimax list by ReachWide.root_values_ab_eq_wide (pinned in props/C08.v); otherwise the
                plain minimax itself *)
-            let rv = if !sdepth >= 4 && inw then root_values_ab tbl rk bs (nat_of_int !sdepth) b
+            let rv = if !sdepth >= 3 && inw then root_values_ab tbl rk bs (nat_of_int !sdepth) b
                      else root_values tbl rk bs (nat_of_int !sdepth) b in
             match rv with
               | Ok [] -> tag ^ " Err NoAvailableMoves"
@@ -709,5 +709,6 @@ let () =
             next_obs := (if i + 1 < n && String.length arr.(i + 1) >= 2 && String.sub arr.(i + 1) 0 2 = "< "
                          then Some (String.sub arr.(i + 1) 2 (String.length arr.(i + 1) - 2)) else None);
             exec l;
-            if Buffer.length out > 60000 then (print_string (Buffer.contents out); Buffer.clear out)) arr;
+            (* every answer is written out at once: a job stopped by its time limit leaves a usable prefix *)
+            print_string (Buffer.contents out); Buffer.clear out; flush stdout) arr;
   print_string (Buffer.contents out)
